@@ -691,6 +691,12 @@ func (e *SpecEnv) callExpr(n *ECall, cur, old *State) Val {
 				ref = v.L[1]
 			}
 			return scalar(intT, Select(vc.get(cur, "Pos"), ref))
+		case "pathjoin":
+			// pathjoin(dir, name): filepath.Join(dir, name) (the trusted two-argument model)
+			a := e.eval(n.Args[0], cur, old)
+			b := e.eval(n.Args[1], cur, old)
+			jn := vc.declareFun("fs.join", []*Sort{SStr, SStr}, SStr)
+			return scalar(types.Typ[types.String], mk(SStr, jn, a.one(), b.one()))
 		case "spdxdoc":
 			// spdxdoc(r): the document spdxjson.Read decodes from stream r (ghost; trusted Read contract)
 			v := e.eval(n.Args[0], cur, old)
